@@ -67,6 +67,8 @@ where
                 let buf = queue.assemble();
                 // tracing::trace!("reassembled {} bytes", buf.len());
                 entry.remove_entry();
+                // the frame is complete: its expiry must not hit a later frame that reuses the id
+                self.timer.retain(|x| x.0 != id);
                 T::from_buffer(buf.freeze())
             } else {
                 None
